@@ -120,14 +120,29 @@ def coverage(c, gen, model):
         seen.setdefault(key, set()).add(d)
         c.count(("node", a["proc"], a["pc"], d, s[0], 1 if s[1] > 0 else 0))
     relevant = set(model["go_callbacks"]) | set(model["c_api"]) | {"executor.call", "lj_view_wrapper"}
-    # per source position (a guard inlined into several processes is one guard)
+    # per source position (a guard inlined into several processes is one guard).  Only "front" guards count: tests
+    # of a flag that are not preceded by another test of the same flag (a test after the guard sees one value only).
     gsrc, msrc = {}, {}
     for p in model["procs"]:
         if p["name"] not in relevant:
             continue
-        for i, nd in enumerate(p["nodes"], 1):
+        nodes = p["nodes"]
+        front = set()
+        for atom in ("isQuery", "nestedView"):
+            seen_n, todo = set(), [p["entry"]]
+            while todo:
+                i = todo.pop()
+                if i <= 0 or i in seen_n:
+                    continue
+                seen_n.add(i)
+                nd = nodes[i - 1]
+                if nd["k"] == "test" and nd["a"] == atom:
+                    front.add(i)
+                    continue
+                todo += [nd["t"], nd["f"]]
+        for i, nd in enumerate(nodes, 1):
             outs = seen.get((p["name"], i), set())
-            if nd["k"] == "test" and nd["a"] in ("isQuery", "nestedView"):
+            if i in front:
                 g = gsrc.setdefault(nd["src"] + " " + nd["a"], set())
                 if nd["t"] in outs:
                     g.add(True)
